@@ -4,7 +4,7 @@
 # usage: build_sim.sh [plain|race|both]
 set -euo pipefail
 export GOFLAGS=-mod=mod GOPROXY=off GOSUMDB=off GOTOOLCHAIN=local
-V=/verif
+V=$(cd "$(dirname "$0")" && pwd)
 R=${VERIF_REPO:-/repo}
 B=${VERIF_BUILD:-$V/build}
 mkdir -p "$B"
